@@ -14,7 +14,7 @@ use rosu_map::section::hit_objects::hit_samples::{HitSampleInfo, HitSampleInfoNa
 use rosu_map::section::hit_objects::{HitObject, HitObjectKind, PathControlPoint, SplineType};
 use rosu_map::Beatmap;
 
-pub const RULE: &str = "chronologically ordered .osu files (structured generator levels 0-1 and the object-centred generator in all four modes, versions 3..128, multi-segment slider paths of every type incl. trailing typed points, same-time timing groups, >20 equal start times; bundled maps and field-level mutations of them), decoded, encoded and decoded again with the real crate; every item the property lists is compared (general/editor/metadata/difficulty/events/colours fields, timing points, slider-velocity / kiai / scroll-speed timelines sampled at all control-point times +-1, hit objects incl. control points, velocities and computed curves, node counts, sample names and banks); correspondence: the `enc` model entry (decode+encode, rendered token stream) vs encode_to_string on the same files; non-trivial = at least one hit object and one timing point; distinct = distinct texts";
+pub const RULE: &str = "chronologically ordered .osu files (structured generator levels 0-1 and the object-centred generator in all four modes, versions 3..128, multi-segment slider paths of every type incl. trailing typed points, same-time timing groups, >20 equal start times; a stream of spinners / holds of the class D33: start far smaller than the end's ulp, ends just above a power of two, half-ulp ties and their near misses; bundled maps and field-level mutations of them), decoded, encoded and decoded again with the real crate; every item the property lists is compared (general/editor/metadata/difficulty/events/colours fields, timing points, slider-velocity / kiai / scroll-speed timelines sampled at all control-point times +-1, hit objects incl. control points, velocities and computed curves, node counts, sample names and banks); correspondence: the `enc` model entry (decode+encode, rendered token stream) vs encode_to_string on the same files; non-trivial = at least one hit object and one timing point; distinct = distinct texts";
 
 fn fb(x: f64) -> String {
     if x.is_nan() {
